@@ -27,6 +27,8 @@ pub mod c18;
 pub mod c17;
 #[cfg(feature = "full")]
 pub mod c19;
+#[cfg(feature = "full")]
+pub mod c01;
 pub mod c12;
 #[cfg(feature = "full")]
 pub mod common;
@@ -62,6 +64,8 @@ pub fn run(prop: &str, ctx: &Ctx) -> Option<Report> {
         "C17" => Some(c17::run(ctx)),
         #[cfg(feature = "full")]
         "C19" => Some(c19::run(ctx)),
+        #[cfg(feature = "full")]
+        "C01" => Some(c01::run(ctx)),
         "C12" => Some(c12::run(ctx)),
         _ => None,
     }
@@ -94,6 +98,8 @@ pub fn replay(prop: &str, ctx: &Ctx, case: &Value) -> ReplayResult {
         "C17" => c17::replay(ctx, case),
         #[cfg(feature = "full")]
         "C19" => c19::replay(ctx, case),
+        #[cfg(feature = "full")]
+        "C01" => c01::replay(ctx, case),
         "C12" => c12::replay(ctx, case),
         _ => Err(format!("no replay for property {}", prop)),
     }
